@@ -124,9 +124,16 @@ Arguments QF (m e)%Z_scope.
 Definition qclose (tol : Q) (a b : Q) : bool := Qle_bool (Qabs.Qabs (a - b)%Q) tol.
 (* case: exact game, pruning flag, the implementation's probabilities (as exact rationals), its sweep count *)
 Definition qreach_case := (game (T:=Q) * bool * list Q * nat)%type.
+(* exactly [n] sweeps, whatever the stopping test would say: the comparison then measures the drift of
+   binary64 arithmetic only, not a stopping decision taken one sweep earlier or later *)
+Definition reach_n_sweeps {T} (K : ops T) (n : nat) (g : game (T:=T)) : outcome (list T) :=
+  do _ <- check_game K g;
+  do sl0 <- init_states K g;
+  do srf <- reverse_dfs (map (map (dst (T:=T))) (g_trans g)) (g_finals g);
+  Ok (map (reach (T:=T)) (Nat.iter n (fun sl => fst (sweep_reach K srf sl)) sl0)).
 Definition run_qreach_cases (tol : Q) (cs : list qreach_case) : list nat :=
   idx_where (fun c =>
-    match solve_reach_fuel qops (snd c + 50) (fst (fst (fst c))) (snd (fst (fst c))) with
-    | Ok r => negb (list_eqb (qclose tol) (map (reach (T:=Q)) (fst (fst r))) (snd (fst c)))
+    match reach_n_sweeps qops (snd c) (fst (fst (fst c))) with
+    | Ok r => negb (list_eqb (qclose tol) r (snd (fst c)))
     | _ => true
     end) cs.
